@@ -3081,7 +3081,9 @@ class Network(Cached):
         """
         DwR = self.sp_diag_sqrt_w()
         sp_Astar = DwR * self.sp_Aplus() * DwR
-        _, evecs = eigsh(sp_Astar, k=1, sigma=self.total_node_weight**2,
+        #  (shift just above the total node weight, which bounds the largest
+        #  eigenvalue for every choice of weights)
+        _, evecs = eigsh(sp_Astar, k=1, sigma=1.0001 * self.total_node_weight,
                          maxiter=100, tol=1e-8)
         ec = evecs.T[0] / np.sqrt(self.node_weights)
         ec *= np.sign(ec[0])
